@@ -14,7 +14,7 @@
 From SV Require Import Model.Common Model.Client Model.ClientAccept Spec.ClientSpec
      Proofs.ClientBase Proofs.ClientSafety Proofs.ClientHistory Proofs.ClientOrder Proofs.ClientTheorems
      Proofs.ClientAcceptProofs Proofs.ClientLiveness Proofs.ClientCorollaries Proofs.ClientFixed Proofs.ClientRecover
-     Model.AckParse Proofs.AckParseProofs.
+     Model.AckParse Proofs.AckParseProofs Model.Datadog Proofs.DatadogProofs.
 From Coq Require Import Permutation.
 
 (* 1. Whenever a chunk is reported delivered, the run contains before that a completed SendChunk of this chunk
@@ -244,6 +244,68 @@ Theorem C02_ack_roundtrip :
   (N.of_nat (length id) < 4294967296)%N -> parse_ack (encode_ack id ++ rest) = PAck id rest.
 Proof. exact ack_roundtrip_lemma. Qed.
 Print Assumptions C02_ack_roundtrip.
+
+(* 7. (widening: the datadog wrapper, output/datadog/clientworker.go)  For the Datadog output the HTTP response to the
+      POST carrying a chunk IS the acknowledgement (ReadChunkAck returns "" at once).  Model/Datadog.v: SendChunk as a
+      decision function on what http.Client.Do handed over (no response / a final response with its status).
+   7a. The decision: SendChunk reports success exactly for a response with a 2xx status - for EVERY integer status
+       (1xx, 3xx with or without Location - redirects are not followed -, 4xx, 5xx, anything else: error). *)
+Theorem C02_datadog_send_ok_iff_2xx :
+  forall r : dd_resp, dd_send_chunk r = ROk <-> exists st, r = DDResp st /\ (200 <= st < 300)%Z.
+Proof. exact dd_send_ok_iff_2xx. Qed.
+Print Assumptions C02_datadog_send_ok_iff_2xx.
+
+(* 7b. Tied to the client LTS (theorem 1 with ack := the HTTP response): in EVERY run of the client whose connection
+       is the Datadog connection answering by the exchanges xs (the i-th SendChunk that returned carried the chunk of
+       the i-th exchange and returned the model's decision on its response; everything else - interleaving, connects,
+       stop, reconnects, capacity - arbitrary), before each confirmation of a chunk c there is an exchange, among
+       those completed before it, in which a POST carrying c was answered with a 2xx status. *)
+Theorem C02_datadog_confirm_only_2xx :
+  forall (P : params) (xs : list dd_exchange) (pre : list event) (c : chunk) (post : list event) (s : state),
+  run P init (pre ++ EConsumed c :: post) = Some s ->
+  dd_history dd_send_chunk xs (pre ++ EConsumed c :: post) ->
+  exists st, In (c, DDResp st) (firstn (length (sendrets pre)) xs) /\ (200 <= st < 300)%Z.
+Proof. exact dd_confirm_only_2xx_lemma. Qed.
+Print Assumptions C02_datadog_confirm_only_2xx.
+
+(* 7c. The theorem depends on the decision function: with the switch of the seeded change (5xx and 4xx are errors,
+       everything else returns nil) there is a run in which a chunk answered only 307 is confirmed ... *)
+Theorem C02_datadog_switch_variant_refuted :
+  exists (xs : list dd_exchange) (tr : list event) (s : state) (c : chunk),
+    run (mkParams 2 false true) init tr = Some s /\ dd_history dd_send_chunk_switch xs tr /\
+    In (EConsumed c) tr /\ forall st, In (c, DDResp st) xs -> ~ (200 <= st < 300)%Z.
+Proof. exact dd_switch_variant_lemma. Qed.
+Print Assumptions C02_datadog_switch_variant_refuted.
+
+(* 7d. ... and with the single check 'StatusCode >= 300' of the code before the fix a chunk answered 101 is
+       (finding C02-datadog-non-2xx-confirmed, fixed). *)
+Theorem C02_datadog_ge300_variant_refuted :
+  exists (xs : list dd_exchange) (tr : list event) (s : state) (c : chunk),
+    run (mkParams 2 false true) init tr = Some s /\ dd_history dd_send_chunk_ge300 xs tr /\
+    In (EConsumed c) tr /\ forall st, In (c, DDResp st) xs -> ~ (200 <= st < 300)%Z.
+Proof. exact dd_ge300_variant_lemma. Qed.
+Print Assumptions C02_datadog_ge300_variant_refuted.
+
+(* 7e. The correspondence case of kind 6: the observed trace of the real client with the result of every SendChunk
+       REPLACED by the model's decision on the response the fake intake gave (dd_apply); if the trace acceptor of the
+       LTS accepts that, every confirmation in it comes after a POST of that very chunk answered 2xx. *)
+Theorem C02_datadog_accepted_case_safe :
+  forall (P : params) (xs : list dd_exchange) (os os' : list event) (out : bytes),
+  dd_apply dd_send_chunk xs os = Some os' ->
+  Forall (fun e => is_obs e = true) os' ->
+  accept_out P false os' = str_accept ++ colon :: out ->
+  forall o1 c o2, os' = o1 ++ EConsumed c :: o2 -> exists st, In (c, DDResp st) xs /\ (200 <= st < 300)%Z.
+Proof. exact dd_accepted_case_lemma. Qed.
+Print Assumptions C02_datadog_accepted_case_safe.
+
+(* 7f. non-vacuity of 7b and the decisions on the boundary classes *)
+Theorem C02_datadog_example :
+  exists s, run (mkParams 2 false true) init dd_good_run = Some s /\
+            dd_history dd_send_chunk [(1%N, DDResp 307)] dd_good_run /\
+            dd_send_chunk (DDResp 202) = ROk /\ dd_send_chunk (DDResp 307) = RErr /\
+            dd_send_chunk (DDResp 101) = RErr /\ dd_send_chunk DDNoResp = RErr.
+Proof. exact dd_example_lemma. Qed.
+Print Assumptions C02_datadog_example.
 
 (* Non-vacuity: a concrete run with a failed send, a reconnect, a retransmission in id order, an id ACK and an
    empty-id ACK satisfies every hypothesis used above. *)
